@@ -176,3 +176,19 @@ theorem C05_editAll_without_generators (l : List ENode) (h : ∀ n ∈ l, n.gen 
     simp [this]
 
 end Nject
+
+namespace Nject
+
+theorem reorderNonFinal_of_last (b : List ENode) (f : ENode) (hf : f.nonFinal = false) :
+    reorderNonFinal (b ++ [f]) = b ++ [f] := by
+  simp [reorderNonFinal, List.reverse_append, List.dropWhile_cons, List.takeWhile_cons, hf]
+
+/-- **the NonFinal adjustment is idempotent**: applying it again (as `characterizeAndFlatten` does after replacing generated
+    providers) changes nothing unless the replacement changed the marks -/
+theorem C05_NonFinal_adjustment_is_idempotent (l : List ENode) : reorderNonFinal (reorderNonFinal l) = reorderNonFinal l := by
+  rcases C05_NonFinal_moves_only_the_final l with ⟨_, h⟩ | ⟨pre, f, tail, _, hf, _, h⟩
+  · rw [h, h]
+  · rw [h]
+    exact reorderNonFinal_of_last _ f hf
+
+end Nject
